@@ -90,58 +90,92 @@ def _prune_cache(keep_prefix, keep=3):
         shutil.rmtree(d, ignore_errors=True)
 
 
+def _file_hash(path, _memo={}):
+    st = os.stat(path)
+    k = (path, st.st_mtime_ns, st.st_size)
+    if k not in _memo:
+        with open(path, "rb") as fh:
+            _memo[k] = hashlib.sha256(fh.read()).hexdigest()
+    return _memo[k]
+
+
+def _tu_key(src, flags, inc):
+    """content hash of a translation unit: the source, every header it includes (g++ -MM), and the flags"""
+    r = subprocess.run(["g++"] + flags + inc + ["-MM", src], stdout=subprocess.PIPE, stderr=subprocess.PIPE, text=True)
+    if r.returncode != 0:
+        raise BuildError("dependency scan failed for " + src + ":\n" + r.stderr[-3000:])
+    deps = r.stdout.replace("\\\n", " ").split(":", 1)[1].split()
+    h = hashlib.sha256(" ".join(flags).encode())
+    for d in sorted(set(os.path.realpath(x) for x in deps)):
+        h.update(d.encode())
+        h.update(_file_hash(d).encode())
+    return h.hexdigest()[:24]
+
+
 def build_harness(kind="san", repo=None, tag="cur"):
     """Compile the sources of `repo` with -DNIFLY_VERIF and link them with harness/*.cpp.
-    Cached by content hash of the repo sources + harness sources + flags.  Returns the binary."""
+    Objects are cached per translation unit by the content hash of the source and all headers it
+    includes (so only what a change touches is rebuilt, and nothing stale is ever linked)."""
     repo = repo or REPO
     flags = CXXFLAGS_SAN if kind == "san" else CXXFLAGS_FAST
     hsrc = os.path.join(VERIF, "harness")
-    rh = repo_hash(repo)
-    lib_key = hashlib.sha256((rh + " ".join(flags)).encode()).hexdigest()[:16]
-    libdir = os.path.join(CACHE, f"lib-{kind}-{lib_key}")
-    os.makedirs(libdir, exist_ok=True)
-    inc = ["-I" + os.path.join(repo, "include"), "-I" + os.path.join(repo, "external"), "-I" + hsrc]
-    srcs = sorted(f for f in os.listdir(os.path.join(repo, "src")) if f.endswith(".cpp"))
-    jobs = []
-    for s in srcs:
-        o = os.path.join(libdir, s[:-4] + ".o")
-        if not os.path.exists(o):
-            jobs.append((["g++"] + flags + inc + ["-c", os.path.join(repo, "src", s), "-o", o + ".tmp"], o))
-    hkey = _hash_tree([hsrc], (lib_key + tag).encode())
-    bindir = os.path.join(CACHE, f"bin-{kind}-{hkey}")
+    objdir = os.path.join(CACHE, "obj")
+    bindir = os.path.join(CACHE, "bin")
+    os.makedirs(objdir, exist_ok=True)
     os.makedirs(bindir, exist_ok=True)
-    binp = os.path.join(bindir, "nvharness")
-    hs = sorted(f for f in os.listdir(hsrc) if f.endswith(".cpp"))
-    if not os.path.exists(binp):
-        for s in hs:
-            o = os.path.join(bindir, s[:-4] + ".o")
-            if not os.path.exists(o):
-                jobs.append((["g++"] + flags + inc + ["-c", os.path.join(hsrc, s), "-o", o + ".tmp"], o))
+    inc = ["-I" + os.path.join(repo, "include"), "-I" + os.path.join(repo, "external"), "-I" + hsrc]
+    srcs = [os.path.join(repo, "src", f) for f in sorted(os.listdir(os.path.join(repo, "src"))) if f.endswith(".cpp")]
+    srcs += [os.path.join(hsrc, f) for f in sorted(os.listdir(hsrc)) if f.endswith(".cpp")]
+    t0 = time.time()
+    with ThreadPoolExecutor(JOBS) as ex:
+        keys = list(ex.map(lambda s_: _tu_key(s_, flags, inc), srcs))
+    objs = [os.path.join(objdir, f"{os.path.basename(s_)[:-4]}-{kind}-{k}.o") for s_, k in zip(srcs, keys)]
+    jobs = [(["g++"] + flags + inc + ["-c", s_, "-o", o + f".tmp{os.getpid()}"], o) for s_, o in zip(srcs, objs)
+            if not os.path.exists(o)]
     if jobs:
-        log(f"[build] compiling {len(jobs)} translation units ({kind}, repo hash {rh}) ...")
-        t0 = time.time()
+        log(f"[build] compiling {len(jobs)}/{len(srcs)} translation units ({kind}) ...")
 
         def comp(j):
             r = sh(j[0])
             if r.returncode != 0:
                 return (j, r.stdout)
-            os.replace(j[1] + ".tmp", j[1])
+            os.replace(j[0][-1], j[1])
             return None
         with ThreadPoolExecutor(JOBS) as ex:
             errs = [e for e in ex.map(comp, jobs) if e]
         if errs:
             raise BuildError("harness build failed:\n" + errs[0][1][-4000:])
         log(f"[build] compiled in {time.time() - t0:.0f}s")
+    bkey = hashlib.sha256(("".join(keys) + tag).encode()).hexdigest()[:20]
+    binp = os.path.join(bindir, f"nvharness-{kind}-{bkey}")
     if not os.path.exists(binp):
-        objs = [os.path.join(libdir, s[:-4] + ".o") for s in srcs] + [os.path.join(bindir, s[:-4] + ".o") for s in hs]
-        r = sh(["g++"] + flags + objs + ["-o", binp + ".tmp"])
+        tmp = binp + f".tmp{os.getpid()}"
+        r = sh(["g++"] + flags + objs + ["-o", tmp])
         if r.returncode != 0:
             raise BuildError("harness link failed:\n" + r.stdout[-4000:])
-        os.replace(binp + ".tmp", binp)
-    os.utime(libdir)
-    os.utime(bindir)
-    _prune_cache(f"lib-{kind}-")
-    _prune_cache(f"bin-{kind}-")
+        os.replace(tmp, binp)
+    now = time.time()
+    for o in objs + [binp]:
+        os.utime(o, (now, now))
+    # eviction: keep the cache below ~3 GB, dropping least recently used files
+    ents = []
+    for d in (objdir, bindir):
+        for f in os.listdir(d):
+            fp = os.path.join(d, f)
+            try:
+                st = os.stat(fp)
+                ents.append((st.st_mtime, st.st_size, fp))
+            except OSError:
+                pass
+    total = sum(e[1] for e in ents)
+    for mt, sz, fp in sorted(ents):
+        if total < 3 * 2**30:
+            break
+        try:
+            os.remove(fp)
+            total -= sz
+        except OSError:
+            pass
     return binp
 
 
@@ -235,7 +269,7 @@ def run_lines(binary, lines, env=None, timeout=3600, cwd=None):
     """feed `lines` to a line-protocol process; returns list of output lines.
     If the process dies, raises Crash naming the first line without an answer."""
     e = dict(os.environ)
-    e.setdefault("ASAN_OPTIONS", "detect_leaks=0:abort_on_error=0:allocator_may_return_null=1")
+    e.setdefault("ASAN_OPTIONS", "detect_leaks=0:abort_on_error=0:allocator_may_return_null=1:hard_rss_limit_mb=4096:max_allocation_size_mb=2048")
     e.setdefault("UBSAN_OPTIONS", "print_stacktrace=1")
     if env:
         e.update(env)
